@@ -134,7 +134,7 @@ var targets = []target{
 	tg("HexInt", new(common.HexInt)), tg("*HexInt", new(*common.HexInt)),
 	tg("HexInt16", new(common.HexInt16)), tg("HexUint64", new(common.HexUint64)),
 	tg("HexBool", new(common.HexBool)),
-	tg("RawT", new(RawT)), tg("[]RawT", new([]RawT)),
+	tg("RawT", new(RawT)), tg("[]RawT", new([]RawT)), tg("*RawT", new(*RawT)),
 	tg("[]int16", new([]int16)), tg("[]string", new([]string)), tg("[][]byte", new([][]byte)),
 	tg("[]uint64", new([]uint64)), tg("[]bool", new([]bool)),
 	tg("[3]uint16", new([3]uint16)), tg("[2][]byte", new([2][]byte)), tg("[2]S2", new([2]S2)),
@@ -235,8 +235,9 @@ func init() {
 			gen: func(r *rand.Rand, rv reflect.Value, _ int) { rv.FieldByName("Value").SetBool(r.Intn(2) == 0) },
 		},
 		reflect.TypeOf(RawT{}): {
-			ty:  func() string { return "TRaw" },
-			val: func(rv reflect.Value, _ bool) string { return fmt.Sprintf("(VRaw %s)", hxlib.CoqBytes(rv.FieldByName("B").Bytes())) },
+			ty:      func() string { return "TRaw" },
+			absorbs: true, nilv: "(VRaw [248;0])", // ReadRaw hands the nil marker to UnmarshalRLP
+			val: func(rv reflect.Value, _ bool) string { return fmt.Sprintf("(VRaw %s)", coqBytes(rv.FieldByName("B").Bytes())) },
 			gen: func(r *rand.Rand, rv reflect.Value, _ int) { rv.FieldByName("B").SetBytes(genRawItem(r)) },
 		},
 		reflect.TypeOf(SelfS{}): {
@@ -389,13 +390,13 @@ func valOf(rv reflect.Value, canon bool) string {
 	case reflect.Bool:
 		return fmt.Sprintf("(VBool %v)", rv.Bool())
 	case reflect.String:
-		return "(VString " + hxlib.CoqBytes([]byte(rv.String())) + ")"
+		return "(VString " + coqBytes([]byte(rv.String())) + ")"
 	case reflect.Slice:
 		if isByte(rt.Elem()) {
 			if rv.IsNil() {
 				return "(VBytes None)"
 			}
-			return "(VBytes (Some " + hxlib.CoqBytes(rv.Bytes()) + "))"
+			return "(VBytes (Some " + coqBytes(rv.Bytes()) + "))"
 		}
 		if rv.IsNil() {
 			return "(VList None)"
@@ -409,7 +410,7 @@ func valOf(rv reflect.Value, canon bool) string {
 		if isByte(rt.Elem()) {
 			b := make([]byte, rv.Len())
 			reflect.Copy(reflect.ValueOf(b), rv)
-			return "(VByteArr " + hxlib.CoqBytes(b) + ")"
+			return "(VByteArr " + coqBytes(b) + ")"
 		}
 		items := make([]string, rv.Len())
 		for i := range items {
@@ -542,9 +543,44 @@ func genLen(r *rand.Rand, depth int) int {
 	}
 }
 
+// byte strings as Coq terms; long runs of one byte are printed as (rpt n c) so that a
+// 64 KiB string stays a small term
+func coqBytes(b []byte) string {
+	if len(b) <= 200 {
+		return hxlib.CoqBytes(b)
+	}
+	var parts []string
+	lit := 0
+	for i := 0; i < len(b); {
+		j := i
+		for j < len(b) && b[j] == b[i] {
+			j++
+		}
+		if j-i >= 48 {
+			if i > lit {
+				parts = append(parts, hxlib.CoqBytes(b[lit:i]))
+			}
+			parts = append(parts, fmt.Sprintf("rpt %d %d", j-i, b[i]))
+			lit = j
+		}
+		i = j
+	}
+	if lit < len(b) {
+		parts = append(parts, hxlib.CoqBytes(b[lit:]))
+	}
+	return "(" + strings.Join(parts, " ++ ") + ")"
+}
+
 func genBytes(r *rand.Rand, depth int) []byte {
 	n := genLen(r, depth)
 	b := make([]byte, n)
+	if n > 200 { // long strings: one repeated byte (see coqBytes)
+		c := []byte{0x00, 0x7f, 0x80, 0xff, 'x', 'y'}[r.Intn(6)]
+		for i := range b {
+			b[i] = c
+		}
+		return b
+	}
 	switch r.Intn(4) {
 	case 0:
 		r.Read(b)
